@@ -1,4 +1,5 @@
 import Np.Proofs.Expr
+import Np.Proofs.Shape
 /-! C01 — ring arithmetic on polynomial arrays is exact: property theorems (helpers live in Np/Proofs). -/
 namespace Np.Props.C01
 open MvPolynomial Shape
@@ -56,6 +57,56 @@ theorem distributivity (f g h : MvPolynomial Name R) : (f + g) * h = f * h + g *
 theorem commutativity (f g : MvPolynomial Name R) : f * g = g * f := mul_comm f g
 theorem associativity (f g h : MvPolynomial Name R) : f * g * h = f * (g * h) := mul_assoc f g h
 end arrays
+
+/-! ### broadcasting is numpy's and never leaves the model's domain -/
+section broadcasting
+variable {R : Type}
+
+/-- the model's `bshape` is `numpy.broadcast_shapes`: the result has the larger rank and, aligned from the right,
+every dimension of either operand equals the result's or is 1 -/
+theorem broadcast_shape_is_numpy {s t r : List Nat} (h : bshape s t = some r) :
+    r.length = max s.length t.length ∧
+    (∀ k, k < s.length → s.reverse[k]? = r.reverse[k]? ∨ s.reverse[k]? = some 1) ∧
+    (∀ k, k < t.length → t.reverse[k]? = r.reverse[k]? ∨ t.reverse[k]? = some 1) :=
+  Shape.bshape_spec h
+
+/-- an operand which already has the broadcast shape is not rearranged -/
+theorem broadcast_same_shape {s : List Nat} (hs : ∀ d ∈ s, 0 < d) {i : Nat} (hi : i < size s) :
+    bindex s s i = i := Shape.bindex_same hs hi
+
+/-- **totality**: for operands without a zero-length axis a binary operation has exactly two kinds of outcome —
+`ValueError` iff the shapes do not broadcast, otherwise a result of the broadcast shape (or the "unwritten memory"
+error which only `multiply`'s kernel model can raise); the model's own out-of-domain error is unreachable, so the
+specification theorems above apply to every such call -/
+theorem binop_total
+    (f : (n : Nat) → Poly (Vec R n) → Poly (Vec R n) → Option (Poly (Vec R n))) (a b : Arr R)
+    (ha : ∀ d ∈ a.shape, 0 < d) (hb : ∀ d ∈ b.shape, 0 < d) :
+    (bshape a.shape b.shape = none ∧ Arr.binop f a b = .error .valueError) ∨
+    (∃ s, bshape a.shape b.shape = some s ∧
+      (Arr.binop f a b = .error .uninit ∨ ∃ p, Arr.binop f a b = .ok ⟨s, p⟩)) :=
+  Arr.binop_cases f a b ha hb
+
+/-- `+` on broadcastable operands without a zero-length axis always succeeds with the broadcast shape -/
+theorem add_succeeds [CommRing R] [BEq R] (rc rn : Bool) (a b : Arr R) {s : List Nat}
+    (hs : bshape a.shape b.shape = some s)
+    (ha : ∀ d ∈ a.shape, 0 < d) (hb : ∀ d ∈ b.shape, 0 < d) :
+    ∃ p, Arr.add rc rn a b = .ok ⟨s, p⟩ := by
+  rcases Arr.binop_cases (fun _ x y => some (Np.add rc rn x y)) a b ha hb with ⟨hn, _⟩ | ⟨s', hs', h⟩
+  · rw [hs] at hn; cases hn
+  · rw [hs] at hs'; cases hs'
+    rcases h with h | h
+    · exfalso
+      unfold Arr.binop at h
+      rw [hs] at h
+      obtain ⟨h1, h2⟩ := Arr.bcast_total a b hs ha hb
+      cases hpa : a.bcast s with
+      | none => exact h1 hpa
+      | some pa =>
+        cases hpb : b.bcast s with
+        | none => exact h2 hpb
+        | some pb => simp [hpa, hpb] at h
+    · exact h
+end broadcasting
 
 /-- non-vacuity: a = [[q0+1, q2]] (1×2, names q0,q2), b = [[q1],[q0·q1]] (2×1): the model evaluates (a+b)·b² to a
 2×2 array over q0,q1,q2 -/
